@@ -15,8 +15,17 @@ RULE = ("the same hydraulic set-up (same generator seed: topology, capacities, h
 SETS = ["simple", "four", "reordered", "one"]
 
 
+def short(x):
+    """a number for a message: exact when it is short, else a float"""
+    try:
+        t = str(x)
+        return t if len(t) <= 60 else f"{float(x):.17g} (exact value has {len(t)} characters)"
+    except ValueError:
+        return f"{float(x):.17g}"
+
+
 def paired(rep, thorough):
-    n = 400 if thorough else 50
+    n = 400 if thorough else 120
     viol = 0
     compared = 0
     mixed = 0
@@ -27,12 +36,12 @@ def paired(rep, thorough):
         with_ov = r0.random() < 0.35
         strip = r0.random() < 0.4
         nodecay = r0.random() < 0.4
-        cold = r0.random() < 0.35
+        cold = r0.random() < (0.7 if idx % 3 == 2 else 0.25)
         for k, ps in enumerate(sets):
             # (every third set-up with travel-time, decaying, one-way, sewer and weir arcs: the same classes and travel times
             # under every pollutant configuration; what differs is what the water carries, e.g. on a dry day)
             cfg = NG.gen_model(random.Random(seed), ndates=5 if idx % 3 == 2 else 4, polset=ps, size=size,
-                               opts={"polseed": k, "overrides": with_ov, "arc_mix": 0.5 if idx % 3 == 2 else 0})
+                               opts={"polseed": k, "overrides": with_ov, "arc_mix": 0.5 if idx % 3 == 2 else 0, "stress": idx % 3 == 2})
             mixed += int(idx % 3 == 2 and k == 0)
             if strip and k == 1:
                 # "different treatment parameters": this configuration leaves the pollutant treatment of every works to the
@@ -77,7 +86,7 @@ def paired(rep, thorough):
                         for part in (0, 1):
                             for key in a[part]:
                                 if a[part][key] != b[part].get(key):
-                                    where = f"timestep {t}: {key}: {a[part][key]} under '{base[0]}' vs {b[part].get(key)} under '{ps}'"
+                                    where = f"timestep {t}: {key}: {short(a[part][key])} under '{base[0]}' vs {short(b[part].get(key))} under '{ps}'"
                                     break
                 if viol <= 3:
                     rep.violation("counterexample", f"C20 paired runs: volumes differ between pollutant configurations: {where}",
